@@ -4,6 +4,7 @@
 # usage: mutant.sh <patch-file|-> <mode> <runs> [plain|race|instr] [seed]   ('-': no patch; REVERT=<commit> reverts a commit instead)
 set -u
 PATCH=$1; MODE=$2; RUNS=$3; RACE=${4:-plain}; SEED=${5:-1}
+V=$(cd "$(dirname "$0")" && pwd)   # a snapshot (git worktree) of /verif works too: the sources next to this script are used
 # a small, fixed set of worktree paths: the Go build cache keys on directory names, and a new path
 # per invocation filled the disk with 100 GB of cache entries
 SLOT=""
@@ -19,13 +20,13 @@ if [ -n "${REVERT:-}" ]; then (cd $WT && git revert --no-edit -n $REVERT) || exi
 if [ "$PATCH" != "-" ]; then (cd $WT && git apply "$PATCH") || { echo "patch does not apply"; exit 2; }; fi
 (cd $WT && go build ./... ) || { echo "mutant does not build"; exit 2; }
 B=/var/tmp/mutb_$$; mkdir -p $B
-VERIF_REPO=$WT VERIF_BUILD=$B /verif/build_sim.sh $([ "$RACE" = race ] && echo race || ([ "$RACE" = instr ] && echo instr || echo plain)) || exit 2
+VERIF_REPO=$WT VERIF_BUILD=$B $V/build_sim.sh $([ "$RACE" = race ] && echo race || ([ "$RACE" = instr ] && echo instr || echo plain)) || exit 2
 BIN=$B/sim.test; EXTRA=""
 if [ "$RACE" = instr ]; then EXTRA="-gyields"; fi
 if [ "$RACE" = race ]; then BIN=$B/sim.race.test; EXTRA="-racelog=$B/race -noref"; export GORACE="log_path=$B/race halt_on_error=0"; fi
 NW=${WORKERS:-8}; PER=$((RUNS/NW))
 for k in $(seq 0 $((NW-1))); do
-  (cd /verif && $BIN -test.run='^TestSim$' -mode=$MODE -seed=$SEED -first=$((k*PER)) -runs=$PER -casedir=$B/cases -out=$B/w$k.json $EXTRA >$B/w$k.log 2>&1) &
+  (cd $V && $BIN -test.run='^TestSim$' -mode=$MODE -seed=$SEED -first=$((k*PER)) -runs=$PER -casedir=$B/cases -out=$B/w$k.json $EXTRA >$B/w$k.log 2>&1) &
 done
 wait; head -c 3000 $B/w0.log; ls $B
 python3 - $B $NW <<'PY'
